@@ -38,6 +38,7 @@ type AType struct {
 	Vmethods []string `json:"vmethods"`
 	Pmethods []string `json:"pmethods"`
 	Decl     string   `json:"decl"` // Go text of the declaration body (rendering)
+	NoOwnMethods bool `json:"noown"` // methods are promoted from an embedded struct: none is rendered
 }
 
 type UnionObs struct {
@@ -128,6 +129,14 @@ func compose(n int, rootCore, subCore coreT, rng *rand.Rand) Case {
 	place(subCore, sub)
 	// a root type implementing (in Go's sense) interfaces of the sub package: never a member there
 	c.Types = append(c.Types, AType{Key: root + ".Cross", Pkg: root, Name: "Cross", Kind: "struct", Decl: "struct{ W string }", Vmethods: []string{"M1"}, Pmethods: []string{}})
+	// a struct whose method set comes only from an embedded struct (promoted methods, none of its own)
+	for _, t := range c.Types {
+		if t.Pkg == root && t.Kind == "struct" && t.Name != "Cross" {
+			c.Types = append(c.Types, AType{Key: root + ".Promo", Pkg: root, Name: "Promo", Kind: "struct", Decl: "struct {\n\t" + t.Name + "\n\tExtra int\n}",
+				Vmethods: append([]string{}, t.Vmethods...), Pmethods: append([]string{}, t.Pmethods...), NoOwnMethods: true})
+			break
+		}
+	}
 	// decide how each expected union is reached from Holder
 	isUnion := func(i AIface) bool {
 		for _, t := range c.Types {
@@ -241,6 +250,9 @@ func render(c *Case) map[string]string {
 			w = &subf
 		}
 		fmt.Fprintf(w, "type %s %s\n\n", t.Name, t.Decl)
+		if t.NoOwnMethods {
+			continue
+		}
 		for _, m := range t.Vmethods {
 			fmt.Fprintf(w, "func (%s) %s() {}\n", t.Name, m)
 		}
